@@ -1449,6 +1449,20 @@ func (e *Enc) bindLoopIndex(sc *specCtx, fc *fctx, l *loopInfo, st *State) {
 			}
 		}
 	}
+	// a range over a Go map: `visited(k)` in the loop's invariants says that key k has been handed out by
+	// an earlier iteration (the iterator's own bookkeeping: empty at the range statement, one key more per
+	// iteration, the whole domain when the loop ends)
+	for _, ins := range l.head.Instrs {
+		if nx, ok := ins.(*ssa.Next); ok && !nx.IsString {
+			if r, ok := nx.Iter.(*ssa.Range); ok {
+				if mt, ok := r.X.Type().Underlying().(*types.Map); ok {
+					if t, ok := st.iter[r]; ok {
+						sc.vars["$visited"] = SV{T: t, Ty: types.NewMap(mt.Key(), types.Typ[types.Bool])}
+					}
+				}
+			}
+		}
+	}
 	switch {
 	case rangeIdx != nil:
 		if t, ok := st.loc[rangeIdx]; ok && !strings.HasPrefix(t, "@lazy!") {
